@@ -152,7 +152,9 @@ var attrTable = []attrGen{
 	{"key-quotes", false, func(id int) slog.Attr { return slog.String(`"q"`+tag(id), `"`) }},
 	{"key-bad-utf8", false, func(id int) slog.Attr { return slog.String("bad\xffkey"+tag(id), "v") }},
 	{"key-newline", false, func(id int) slog.Attr { return slog.String("nl\nkey\t"+tag(id), "v") }},
-	{"key-builtin", false, func(id int) slog.Attr { return slog.String([]string{"msg", "Level", "time", "source", "severity", "message"}[uint(id)%6], tag(id)) }},
+	{"key-builtin", false, func(id int) slog.Attr {
+		return slog.String([]string{"msg", "Level", "time", "source", "severity", "message"}[uint(id)%6], tag(id))
+	}},
 	{"key-dot", false, func(id int) slog.Attr { return slog.Group("g.r"+tag(id), slog.String("a.b", "c")) }},
 	{"key-unicode", false, func(id int) slog.Attr { return slog.String("über "+tag(id), "v") }},
 }
